@@ -66,3 +66,13 @@ func (o *Once) Do(f func()) {
 	defer close(ch)
 	f()
 }
+
+// YieldHook, when set by the simulator, parks the calling goroutine at an armed pre-emption point until
+// the scheduler resumes it. Unset (always, outside the simulator's worker): Yield is a no-op.
+var YieldHook func(site string)
+
+func Yield(site string) {
+	if h := YieldHook; h != nil {
+		h(site)
+	}
+}
